@@ -395,6 +395,58 @@ func monC07(c *child.Ctx, replay json.RawMessage) {
 		}
 		c.Count("one_byte_messages_displayed", 256)
 	}
+	// EVERY message type, not only the ones known to have a decoder today: short
+	// CRC-valid frames with random and patterned bodies, decoded and displayed
+	{
+		per := c.Pick(300, 3000)
+		for t := c.Batch; t < 4096; t += c.NBatch {
+			for j := 0; j < per; j++ {
+				n := 2 + j%30
+				if j%50 == 49 {
+					n = r.Range(32, 200)
+				}
+				body := r.Bytes(n)
+				switch j % 5 {
+				case 1:
+					for x := range body {
+						body[x] = 0
+					}
+				case 2:
+					for x := range body {
+						body[x] = 0xff
+					}
+				case 3:
+					// small counters: many layouts begin with lengths of what follows
+					for x := range body {
+						body[x] = byte(r.Intn(8))
+					}
+				}
+				body[0], body[1] = byte(t>>4), byte(t<<4)|body[1]&0x0f
+				frame := ref.Frame(body)
+				var cj []byte
+				k := crashCase{Frame: hexs(frame), Note: "every type, short body"}
+				if j%64 == 0 {
+					cj = c.BeginV(k)
+				} else {
+					cj, _ = json.Marshal(k)
+				}
+				lvl := []slog.Level{slog.LevelInfo, slog.LevelDebug}[j%2]
+				func() {
+					defer func() {
+						if rr := recover(); rr != nil {
+							c.Violate("panic", fmt.Sprintf("panic while decoding/displaying a %d-byte frame of type %d at level %v: %v", len(frame), t, lvl, rr), cj)
+						}
+					}()
+					h := handler.New(fixedStart, lvl)
+					if m, _ := h.GetMessage(frame); m != nil {
+						exerciseMessage(m)
+					}
+				}()
+			}
+			c.EvalN(1)
+		}
+		c.Count("all_types_swept_with_short_bodies", 1)
+	}
 	// long monotonous streams
 	if c.Batch == 0 || c.Thorough() && c.Batch < 12 {
 		zero := []byte{0xd3, 0, 0}
